@@ -68,6 +68,12 @@ fn process_tcp_packet(
 
     let flow_key: FlowKey = (src_ip, dst_ip, src_port, dst_port);
 
+    // A SYN opens a new connection: bytes an earlier connection from the same endpoint left in
+    // the reader are stale and must not be prepended to the new stream.
+    if tcp.get_flags() & pnet::packet::tcp::TcpFlags::SYN != 0 {
+        tcp_flows.remove(&flow_key);
+    }
+
     let payload = tcp.payload();
     if payload.is_empty() {
         return Ok(None);
